@@ -195,6 +195,18 @@ impl Bx {
         v.iter().map(|a| c.bornof(*a)).max().unwrap_or(0) as usize
     }
 
+    pub fn show(&self, c: &Ctx, depth: u32) -> String {
+        match self {
+            Bx::T => "true".into(),
+            Bx::F => "false".into(),
+            Bx::Cmp(cmp, a, b) => format!("{} {} {}", c.show(*a, depth), match cmp { Cmp::Lt => "<", Cmp::Le => "<=", Cmp::Eq => "==" }, c.show(*b, depth)),
+            Bx::IsNan(a) => format!("isnan({})", c.show(*a, depth)),
+            Bx::Not(b) => format!("!({})", b.show(c, depth)),
+            Bx::And(v) => v.iter().map(|b| format!("({})", b.show(c, depth))).collect::<Vec<_>>().join(" && "),
+            Bx::Or(v) => v.iter().map(|b| format!("({})", b.show(c, depth))).collect::<Vec<_>>().join(" || "),
+        }
+    }
+
     pub fn size(&self) -> usize {
         match self {
             Bx::Not(b) => 1 + b.size(),
